@@ -13,6 +13,13 @@
 //	codequota  conncode.Service.CreateConnectionCode     gates = the storage operations of the store double
 //	mapquota   conncode.Service.ActivateConnectionCode   (index read, record write, index append)
 //
+// Next to the racing admissions run the things that are not admissions but touch what the limit is counted on:
+// list requests of the quota's owner (codequota: ListConnectionCodesByTargetClient, which prunes index entries;
+// mapquota: ListOutboundMappings), closes of absent ids, and closes of a mapping connection's tunnel from outside the
+// handler (fatal TunnelError / TunnelClosed notification / CloseTunnel) between RegisterTunnel and Tunnel.Start (seam:
+// the tunnel manager's "registered tunnel" log line) and while it relays. Occupancy at the start is limit-slack
+// (slack 1..3), so requests also race with more than one slot free.
+//
 // plus a seeded free-running variant (all n released at once, jitter at the same gates). The recorded
 // Admit/Refuse/Release/Obs events are judged by spec/LimitsTrace.tla.
 package main
@@ -33,6 +40,7 @@ import (
 	"time"
 
 	"tunnox-core/internal/client/mapping"
+	"tunnox-core/internal/client/tunnel"
 	"tunnox-core/internal/cloud/models"
 	"tunnox-core/internal/cloud/repos"
 	"tunnox-core/internal/cloud/services"
@@ -106,6 +114,9 @@ func (b *behaviour) tag() string {
 		case st.A == "PeerClose" && !seen["peerclose"]:
 			seen["peerclose"] = true
 			t = append(t, "peerclose") // a peer notification closes a tunnel between its registration and its start
+		case st.A == "PeerCloseLive" && !seen["livepeerclose"]:
+			seen["livepeerclose"] = true
+			t = append(t, "livepeerclose") // a peer notification closes a tunnel that is relaying
 		}
 	}
 	return strings.Join(t, ":")
@@ -623,8 +634,9 @@ func (r *mapRig) atRegistered(args []interface{}) {
 	c.regOnce.Do(func() { close(c.regLeft) })
 }
 
-// peerClose delivers a fatal tunnel error notification for the tunnel of connection p
-func (r *mapRig) peerClose(p int) bool {
+// peerClose closes the tunnel of connection p from outside the handler, through one of the routes the client
+// has for it: a fatal TunnelError notification, a TunnelClosed notification, or CloseTunnel on the manager.
+func (r *mapRig) peerClose(p int, route int) bool {
 	c := r.conn(p)
 	if c == nil {
 		return false
@@ -633,8 +645,19 @@ func (r *mapRig) peerClose(p int) bool {
 	if id == "" {
 		return false
 	}
-	r.h.GetTunnelManager().OnTunnelError(id, "pmap_verif", "TARGET_UNREACHABLE", "verif: target unreachable", false)
+	closeVia(r.h.GetTunnelManager(), id, route)
 	return true
+}
+
+func closeVia(tm tunnel.TunnelManager, id string, route int) {
+	switch route % 3 {
+	case 0:
+		tm.OnTunnelError(id, "pmap_verif", "TARGET_UNREACHABLE", "verif: target unreachable", false)
+	case 1:
+		tm.OnTunnelClosed(id, "pmap_verif", "peer_closed", 0, 0, 1)
+	default:
+		_ = tm.CloseTunnel(id, tunnel.CloseReasonPeerClosed)
+	}
 }
 
 func (r *mapRig) atHook() {
@@ -843,7 +866,8 @@ func newQuotaRig(b *behaviour, s *sched.Sched) *quotaRig {
 		}
 	} else {
 		r.st.GateOn = func(op, key string) bool {
-			return (op == "GetList" && key == idxMapL) || (op == "Set" && strings.HasPrefix(key, pfxMap)) || (op == "AppendToList" && key == idxMapL)
+			return (op == "GetList" && key == idxMapL) || (op == "Set" && strings.HasPrefix(key, pfxMap)) || (op == "AppendToList" && key == idxMapL) ||
+				(op == "RemoveFromList" && key == idxMapL)
 		}
 	}
 	cfg := &services.ConnectionCodeServiceConfig{MaxActiveCodesPerClient: 1000, MaxActiveMappingsPerClient: 1000}
@@ -959,8 +983,15 @@ func (r *quotaRig) request(p int) outcome {
 	return outcome{Err: err.Error()}
 }
 
-// list = the read-only "list my codes" query; it prunes index entries whose record it does not find
-func (r *quotaRig) list() { r.svc[0].ListConnectionCodesByTargetClient(clientT) }
+// list = the read-only "list my codes" / "list my mappings" query of the client that owns the quota (no quota mutex);
+// the former prunes index entries whose record it does not find
+func (r *quotaRig) list() {
+	if r.b.Cfg.K == "codequota" {
+		r.svc[0].ListConnectionCodesByTargetClient(clientT)
+		return
+	}
+	r.svc[0].ListOutboundMappings(clientL)
+}
 
 func (r *quotaRig) release(p int)   {}
 func (r *quotaRig) rerelease(p int) {}
@@ -1357,10 +1388,20 @@ func driveSched(env *fw.Env, b *behaviour) *fw.Trace {
 			if st2, at := s.State(name); st2 != sched.Parked || at.Point != regGate {
 				return unreal("step %d: %s is not between RegisterTunnel and Start (%s at %q)", i, name, st2, at.Point)
 			}
-			if !mr.peerClose(p) {
+			if !mr.peerClose(p, i+p) {
 				return unreal("step %d: tunnel of %s unknown", i, name)
 			}
 			released[p] = true
+		case st.A == "PeerCloseLive":
+			if !started[p] || released[p] || !live[p] {
+				continue // the real connection is not being relayed (it was refused, or ended earlier)
+			}
+			if !mr.peerClose(p, i+p) {
+				return unreal("step %d: tunnel of %s unknown", i, name)
+			}
+			released[p] = true
+			time.Sleep(300 * time.Microsecond) // Tunnel.Close ran in this goroutine; the copy loops end and close it again
+			settle()
 		case st.A == firstStep[kind]:
 			if started[p] {
 				return &fw.Trace{Status: fw.DriverError, Note: "request started twice"}
@@ -1612,14 +1653,14 @@ func driveFree(env *fw.Env, b *behaviour) *fw.Trace {
 			}
 			k++
 			switch {
-			case qr != nil && kind == "codequota":
+			case qr != nil:
 				qr.list()
 			case mr != nil && b.Live:
 				for _, t := range mr.h.GetTunnelManager().ListTunnels() {
 					if id := t.GetID(); !seen[id] {
 						seen[id] = true
 						if (k+len(seen)+b.Seed)%2 == 0 {
-							mr.h.GetTunnelManager().OnTunnelError(id, "pmap_verif", "TARGET_UNREACHABLE", "verif", false)
+							closeVia(mr.h.GetTunnelManager(), id, k+len(seen))
 						}
 					}
 				}
@@ -1705,13 +1746,12 @@ func driveFree(env *fw.Env, b *behaviour) *fw.Trace {
 
 const (
 	allKinds = `{"conncap", "ctrlcap", "tuncap", "maplimit", "codequota", "mapquota"}`
-	allVars  = `{"none", "asis", "wrongkey", "ctrlsplit", "lockdrop", "indexfirst", "doublerelease"}`
-	legVars  = `{"asis", "wrongkey", "ctrlsplit", "lockdrop", "indexfirst", "doublerelease"}`
+	allVars  = `{"none", "asis", "wrongkey", "ctrlsplit", "lockdrop", "indexfirst", "doublerelease", "lastslot"}`
 )
 
 func job(name string, c map[string]string) fw.TLCJob {
-	d := map[string]string{"KINDS": allKinds, "NS": "{2, 3, 4}", "LIMS": "{0, 1, 2}", "NODES": "{1}", "VARIANTS": `{"none"}`, "SHAPE": "free",
-		"RR": "2", "SLACKS": "{1, 2}", "LISTERS": "1", "REL": "TRUE", "EMIT": "FALSE", "EMITMAXN": "4", "EMITALL": "FALSE", "VIEW": "VIEW view", "INVS": ""}
+	d := map[string]string{"KINDS": allKinds, "NS": "{2, 3, 4}", "LIMS": "{0, 1, 2, 3}", "NODES": "{1}", "VARIANTS": `{"none"}`, "SHAPE": "free",
+		"RR": "2", "SLACKS": "{1, 2, 3}", "LISTERS": "1", "REL": "TRUE", "EMIT": "FALSE", "EMITMAXN": "4", "EMITALL": "FALSE", "VIEW": "VIEW view", "INVS": ""}
 	for k, v := range c {
 		d[k] = v
 	}
@@ -1776,27 +1816,39 @@ func main() {
 		DesignRef: "DESIGN.md §5 C17",
 		GenJobs: func(env *fw.Env) []fw.TLCJob {
 			// (few TLC runs: on a loaded machine every JVM start costs more than the model checking itself)
-			maxN := "4"
+			maxN, ns := "4", "{2, 3, 4}"
 			if env.Tier == "quick" {
-				maxN = "3" // 4 racing requests: exhaustive check here, driven in the free-running races and the thorough tier
+				// 4 racing requests: quick tier = exhaustive check of the code as it is (job "mc:n4"), driven in the free-running
+				// races; the thorough tier also checks the faulty variants with 4 requests and drives the behaviours
+				maxN, ns = "3", "{2, 3}"
 			}
 			jobs := []fw.TLCJob{
-				// one run over every modelled code, n in {2,3,4}, limit in {0,1,2}, slack in {1,2}, with list requests and
+				// one run over every modelled code, n in {2,3,4}, limit in {0,1,2} (+3: caps with separate check and insert,
+				// 4 requests, 3 free slots), slack in {1,2,3}, with list requests (both quotas), peer closes and
 				// removals of absent ids. Checked: the code as it is on one instance is strict (no overshoot, no deviation);
 				// the code before the repairs, several instances and the faulty variants overshoot only through a named
 				// deviation. Generated: one behaviour per transition - var = none: class "gen"; the others: class "legacy",
 				// schedules that must be unrealisable on the right tree.
-				job("legacy+gen+mc", map[string]string{"VARIANTS": allVars, "NODES": "{1, 2}", "EMIT": "TRUE", "EMITMAXN": maxN,
+				job("legacy+gen+mc", map[string]string{"NS": ns, "VARIANTS": allVars, "NODES": "{1, 2}", "EMIT": "TRUE", "EMITMAXN": maxN,
 					"INVS": "Strict Safe RefusedNoEffect CounterExact"}),
-				// every maximal behaviour of 2 requests at limit-1 and of 3 requests at limit-2 (var = none, asis), of 3 and 4
-				// registrations for ctrlsplit
+				// every maximal behaviour of 2 requests at limit-1, of 3 requests at limit-2 and (the two caps with separate
+				// check and insert) of 4 requests at limit-3 (var = none; asis: limit-1 only), of 3 and 4 registrations for ctrlsplit
 				job("legacy-all+all", map[string]string{"VARIANTS": `{"none", "asis", "ctrlsplit"}`, "NODES": "{1, 2}", "SHAPE": "pairs", "RR": "1", "LISTERS": "0", "EMITALL": "TRUE", "VIEW": "", "INVS": "EmitMaximal"}),
+			}
+			if env.Tier == "quick" {
+				jobs = append(jobs, job("mc:n4", map[string]string{"NS": "{4}", "NODES": "{1, 2}", "INVS": "Strict Safe RefusedNoEffect CounterExact"}))
 			}
 			if env.Tier == "thorough" {
 				jobs = append(jobs,
-					job("all:n3", map[string]string{"NS": "{3}", "NODES": "{1, 2}", "SLACKS": "{1}", "RR": "1", "LISTERS": "0", "EMITALL": "TRUE", "VIEW": "", "INVS": "EmitMaximal"}),
+					// every maximal behaviour of 3 requests at limit-1. The mapping handler's connection lifetime (register, go live,
+					// peer close, release) makes the number of maximal interleavings of 3 connections explode (> 10^7): for 3
+					// connections only the admission race is enumerated (":map" jobs, WithRelease = FALSE); the lifetime steps are
+					// enumerated for 2 connections above and covered per transition for up to 4.
+					job("all:n3", map[string]string{"KINDS": `{"conncap", "ctrlcap", "tuncap", "codequota", "mapquota"}`, "NS": "{3}", "NODES": "{1, 2}", "SLACKS": "{1}", "RR": "1", "LISTERS": "0", "EMITALL": "TRUE", "VIEW": "", "INVS": "EmitMaximal"}),
+					job("all:n3:map", map[string]string{"KINDS": `{"maplimit"}`, "NS": "{3}", "SLACKS": "{1}", "REL": "FALSE", "LISTERS": "0", "EMITALL": "TRUE", "VIEW": "", "INVS": "EmitMaximal"}),
 					// (as-is quota behaviours block on the mutex of the repaired tree and are covered by "legacy"; here only the two caps)
-					job("legacy-all:n3", map[string]string{"KINDS": `{"conncap", "maplimit"}`, "VARIANTS": `{"asis"}`, "NS": "{3}", "LIMS": "{1, 2}", "SLACKS": "{1}", "RR": "1", "LISTERS": "0", "EMITALL": "TRUE", "VIEW": "", "INVS": "EmitMaximal"}))
+					job("legacy-all:n3", map[string]string{"KINDS": `{"conncap"}`, "VARIANTS": `{"asis"}`, "NS": "{3}", "LIMS": "{1, 2}", "SLACKS": "{1}", "RR": "1", "LISTERS": "0", "EMITALL": "TRUE", "VIEW": "", "INVS": "EmitMaximal"}),
+					job("legacy-all:n3:map", map[string]string{"KINDS": `{"maplimit"}`, "VARIANTS": `{"asis"}`, "NS": "{3}", "LIMS": "{1, 2}", "SLACKS": "{1}", "REL": "FALSE", "LISTERS": "0", "EMITALL": "TRUE", "VIEW": "", "INVS": "EmitMaximal"}))
 			}
 			return jobs
 		},
@@ -1817,7 +1869,7 @@ func main() {
 			quick := env.Tier == "quick"
 			pm := 1000 // per mille of the generated behaviours of this class that are driven
 			switch v {
-			case "lockdrop", "indexfirst", "doublerelease":
+			case "lockdrop", "indexfirst", "doublerelease", "lastslot":
 				if !b.Over {
 					return nil // of these variants keep the behaviours in which the limit is exceeded
 				}
@@ -1842,6 +1894,8 @@ func main() {
 				statMu.Unlock()
 				trans := strings.Contains(src, "+mc") // transition coverage (sampled) vs maximal behaviours (mostly complete)
 				switch {
+				case b.Cfg.Lim > 2: // 4 requests, 3 free slots: every maximal behaviour is generated, a sample is driven
+					pm = 40
 				case src == "all:n3":
 					pm = 60
 				case src == "legacy-all:n3":
@@ -1855,9 +1909,9 @@ func main() {
 				case trans && v == "ctrlsplit":
 					pm = 500
 				case !trans && b.Cfg.K == "maplimit" && b.Cfg.N == 2 && v == "none":
-					pm = 400
+					pm = 250
 				case !trans && b.Cfg.K == "maplimit" && v == "asis":
-					pm = 300
+					pm = 160
 				}
 				if !quick && trans {
 					pm *= 5
@@ -1897,6 +1951,9 @@ func main() {
 								break
 							}
 							b := behaviour{Cfg: mcfg{K: k, N: n, Lim: lim, Nodes: 1}, Free: true, Seed: i}
+							if lim > 1 && n > lim && i%3 == 1 {
+								b.Cfg.Slack = lim // every slot free at the start: n > limit requests race for all of them
+							}
 							if k == "maplimit" {
 								b.Via = []string{"mapping", "userquota"}[i%2]
 								b.Live = i%3 == 2
@@ -1911,6 +1968,16 @@ func main() {
 							}
 						}
 					}
+				}
+			}
+			// 4 requests racing for 3 free slots of the two caps whose check and insert are separate steps
+			for _, k := range []string{"conncap", "maplimit"} {
+				for i := 0; i < reps; i++ {
+					b := behaviour{Cfg: mcfg{K: k, N: 4, Lim: 3, Nodes: 1, Slack: 1 + i%3}, Free: true, Seed: 100 + i}
+					if k == "maplimit" {
+						b.Via = []string{"mapping", "userquota"}[i%2]
+					}
+					out = append(out, fw.MustJSON(b))
 				}
 			}
 			return out
@@ -1943,7 +2010,7 @@ func main() {
 				return fmt.Errorf("the model no longer matches the code: only %d of %d behaviours of the model of the code as it is could be realised", genReal, genAll)
 			}
 			if len(genN) > 0 { // not a replay: the as-is model must still exhibit each race (vacuity guard)
-				for _, v := range []string{"lockdrop", "indexfirst", "doublerelease"} {
+				for _, v := range []string{"lockdrop", "indexfirst", "doublerelease", "lastslot"} {
 					if genOv[v] == 0 {
 						return fmt.Errorf("the %s variant of the model no longer exceeds the limit", v)
 					}
@@ -1961,10 +2028,10 @@ func main() {
 		},
 		SelfTest: func(env *fw.Env, acc []*fw.Trace) []*fw.Trace {
 			// corrupt accepted traces: (a) an occupancy observation above the limit, (b) one admission too
-			// many, (c) a refused request that left something behind
+			// many, (c) a refused request that left something behind, (d) a refused request that kept a slot
 			var out []*fw.Trace
 			id := 1 << 20
-			var na, nb, nc int
+			var na, nb, nc, nd int
 			for _, t := range acc {
 				if len(t.Events) == 0 {
 					continue
@@ -2014,16 +2081,33 @@ func main() {
 						}
 					}
 				}
+				if nd < 10 {
+					refused := false
+					for i, e := range t.Events {
+						if e["ev"] == "Refuse" {
+							refused = true
+						}
+						if want, _ := e["want"].(int); e["ev"] == "Probe" && refused && want > 0 {
+							id++
+							c := cloneTrace(t, id)
+							c.Events[i]["got"] = want - 1
+							out = append(out, c)
+							nd++
+							break
+						}
+					}
+				}
 			}
 			return out
 		},
 		JudgeModule: "LimitsTrace",
 		JudgeCfg:    "LimitsTrace.cfg",
-		Rule: "one behaviour per transition of Limits.tla (every kind, n in {2,3,4} racing requests at occupancy limit-1, limit in {0,1,2}; " +
-			"repaired and as-is model) plus every maximal interleaving for n = 2 (n = 3 in the thorough tier), forced on the real objects; " +
-			"plus seeded free-running races; non-trivial = realised with at least two requests",
+		Rule: "one behaviour per transition of Limits.tla (every kind, n in {2,3,4} racing requests at occupancy limit-1 and limit-2, limit in {0,1,2}; " +
+			"list requests, peer closes and removals of absent ids next to them; the code as it is, the code before the repairs and seven faulty variants) " +
+			"plus every maximal interleaving of 2 requests at limit-1, 3 at limit-2 and (caps with separate check and insert, sampled) 4 at limit-3, " +
+			"forced on the real objects; plus seeded free-running races; non-trivial = realised with at least two requests",
 		Assumptions: []string{"one request per racing process; occupants present at the start stay (except evicted control connections)",
-			"quota kinds: the store double is a correct linearizable map; gated operations are the per-client index read, the record write and the index append",
+			"quota kinds: the store double is a correct linearizable map; gated operations are the per-client index read, the record write, the index append and the index removal",
 			"maplimit: occupancy = handlers inside adapter.PrepareConnection (the handler holds its slot only until handleConnection returns)"},
 		TrustedBase: []string{"TLC", "spec/LimitsTrace.tla as the reading of C17", "harness/sched gate scheduler", "harness/doubles store double"},
 	})
